@@ -29,7 +29,7 @@ PHASE_TAGS = ("HP", "PQ", "PS")
 BASES = "ACGT"
 
 
-def vcf_text(case):
+def default_header(case):
     out = ["##fileformat=VCFv4.2", '##FILTER=<ID=PASS,Description="All filters passed">',
            '##FILTER=<ID=q10,Description="Quality below 10">']
     for n, ln in case["contigs"].items():
@@ -39,6 +39,33 @@ def vcf_text(case):
     if case.get("phasing_header") == 2:
         out.append("##phasing=none")          # a second line with the same key (F61)
     out += list(FORMAT_DEFS.values()) + INFO_DEFS
+    return out
+
+
+def header_model_lines(text):
+    """the `##` lines of a VCF text as pysam's header.records shows them to unphase_header: key, ID of a structured line;
+    htslib drops a generic `##key=value` line that repeats an earlier one verbatim"""
+    out, seen = [], set()
+    for line in text.split("\n"):
+        if not line.startswith("##"):
+            continue
+        key, _, value = line[2:].partition("=")
+        if not value.startswith("<"):
+            if line in seen:
+                continue
+            seen.add(line)
+        hid = None
+        if value.startswith("<"):
+            for part in value[1:].split(","):
+                if part.startswith("ID="):
+                    hid = part[3:].rstrip(">")
+                    break
+        out.append({"key": key, "id": hid, "text": line})
+    return out
+
+
+def vcf_text(case):
+    out = list(case["header_lines"]) if case.get("header_lines") else default_header(case)
     cols = ["#CHROM", "POS", "ID", "REF", "ALT", "QUAL", "FILTER", "INFO"]
     if case["samples"]:
         cols += ["FORMAT"] + case["samples"]
@@ -46,8 +73,9 @@ def vcf_text(case):
     for r in case["records"]:
         line = list(r["fixed"])
         if case["samples"] and r["format"] is not None:
-            line.append(":".join(r["format"]))
-            line += [":".join(c) for c in r["calls"]]
+            # a FORMAT column without any key is spelled "." (htslib's own spelling after every key was deleted)
+            line.append(":".join(r["format"]) or ".")
+            line += [":".join(c) or "." for c in r["calls"]]
         out.append("\t".join(line))
     return "\n".join(out) + "\n"
 
@@ -214,9 +242,96 @@ def gen_case(rng, scale=1, exotic=True, max_records=14):
             records.append({"fixed": fixed, "format": fmt, "calls": calls})
     x = rng.random()                       # (one draw, as before: C12 reuses this generator)
     phasing, second = x < 0.3, x < 0.15
-    if phasing and second:      # F61 (fixed in /repo 3f23520): several ##phasing lines
-        # F61 (fixes/F61.patch): only the first of two `##phasing` lines is removed, so a second application removes the
-        # other one; generated only on request so that the check stays silent on the unpatched tree
+    if phasing and second:      # F61 (= F76, fixed in /repo 3f23520): several ##phasing lines
         phasing = 2
-    return {"contigs": contigs, "samples": samples, "phasing_header": phasing, "records": records,
+    case = {"contigs": contigs, "samples": samples, "phasing_header": phasing, "records": records,
             "exotic": exotic}
+    if exotic and rng.random() < 0.6:
+        case["header_lines"] = gen_header(rng, case)
+    case["input"] = rng.choice(["path", "path", "stdin", "gz"]) if exotic else "path"
+    return case
+
+
+def gen_header(rng, case):
+    """header variants `unphase_header` has to cope with: 0-3 `##phasing` lines anywhere, a `##PHASING` line, INFO fields
+    named like the phase tags, definitions of unused phase tags left out, other generic lines"""
+    used = {k for r in case["records"] for k in (r["format"] or [])}
+    lines = ["##fileformat=VCFv4.2", '##FILTER=<ID=PASS,Description="All filters passed">',
+             '##FILTER=<ID=q10,Description="Quality below 10">']
+    for n, ln in case["contigs"].items():
+        lines.append(f"##contig=<ID={n},length={ln}>")
+    body = []
+    for k, d in FORMAT_DEFS.items():
+        if k in used or k not in PHASE_TAGS or rng.random() < 0.5:
+            body.append(d)
+    body += INFO_DEFS
+    if rng.random() < 0.3:
+        body.append('##INFO=<ID=PS,Number=1,Type=Integer,Description="an INFO field that happens to be called PS">')
+    if rng.random() < 0.2:
+        body.append('##INFO=<ID=HP,Number=1,Type=String,Description="an INFO field that happens to be called HP">')
+    if rng.random() < 0.4:
+        body.append("##source=generator")
+    if rng.random() < 0.3:
+        body.append("##reference=file:///ref.fa")
+    if rng.random() < 0.2:
+        body.append("##PHASING=upper-case-key")
+    rng.shuffle(body)
+    for i in range(rng.choice([0, 1, 1, 2, 2, 3])):
+        body.insert(rng.randrange(len(body) + 1), "##phasing=" + rng.choice(["partial", "none", "whatshap", "partial"]) + ("" if rng.random() < 0.5 else str(i)))
+    return lines + body
+
+
+def edit_case(rng, case):
+    """a random *phase-only edit* of a case (what a phasing writer may do, for every ploidy): the alleles of fully present
+    genotypes are permuted, separators are set at will, HP / PQ / PS are added, changed or deleted (FORMAT column, values and
+    header definitions), `##phasing` lines come and go.  Everything else is copied."""
+    import copy
+    out = copy.deepcopy(case)
+    header = list(case["header_lines"]) if case.get("header_lines") else default_header(case)
+    for r in out["records"]:
+        fmt = r["format"]
+        if fmt is None:
+            continue
+        pos = int(r["fixed"][1])
+        n_alt = len(r["fixed"][4].split(","))
+        keep = [k for k in fmt if k not in PHASE_TAGS or rng.random() < 0.6]
+        for t in PHASE_TAGS:
+            if t not in keep and rng.random() < 0.3:
+                lo = 1 if keep[:1] == ["GT"] else 0
+                keep.insert(rng.randrange(lo, len(keep) + 1), t)
+        calls = []
+        for vals in r["calls"]:
+            d = dict(zip(fmt, vals + ["."] * (len(fmt) - len(vals))))
+            ploidy = 2
+            if "GT" in d:
+                toks = d["GT"].replace("|", "/").split("/")
+                ploidy = len(toks)
+                if "." not in toks and rng.random() < 0.8:
+                    before = list(toks)
+                    for _ in range(5):           # a real change of order whenever the genotype is not homozygous
+                        rng.shuffle(toks)
+                        if toks != before:
+                            break
+                mode = rng.choice(["|", "/", "mixed"])
+                seps = [rng.choice("|/") if mode == "mixed" else mode for _ in toks[1:]]
+                g = toks[0]
+                for sp, t in zip(seps, toks[1:]):
+                    g += sp + t
+                d["GT"] = g
+            new = []
+            for k in keep:
+                if k in PHASE_TAGS and (k not in d or rng.random() < 0.5):
+                    new.append(gen_value(rng, k, n_alt, ploidy, pos))
+                else:
+                    new.append(d[k])
+            calls.append(new)
+        r["format"], r["calls"] = keep, calls
+    used = {k for r in out["records"] for k in (r["format"] or [])}
+    header = [l for l in header if not (l.startswith("##phasing=") and rng.random() < 0.5)]
+    for t in PHASE_TAGS:
+        if t in used and not any(l.startswith(f"##FORMAT=<ID={t},") for l in header):
+            header.append(FORMAT_DEFS[t])
+    if rng.random() < 0.3:
+        header.insert(rng.randrange(1, len(header) + 1), "##phasing=edited")
+    out["header_lines"] = header
+    return out
